@@ -37,6 +37,9 @@ CHECKS.update({
  "C23": ("exploration", "property-based testing (Hypothesis): validity predicate (subset / equality below the limit / at least k tuples) against the unlimited run of the same program",
          "For generated recursive programs and limits k around the unlimited size s (k<<s, s-1, s, s+1, >s) the limited relation is a duplicate-free subset of the unlimited one, equal to it when s<k and of size >= k otherwise; a search, not a proof.",
          "Interpreter back end; the unlimited result is souffle's own (its agreement with the reference evaluator is C01's subject).", "4/C23"),
+ "C08": ("exploration", "property-based testing (Hypothesis): metamorphic differential across representation qualifiers, plus reference-model oracle (naive evaluator with eqrel := equivalence closure) for eqrel relations read in every binding pattern",
+         "No output difference when every relation's representation is redrawn from {default, btree, brie, btree_delete}, and every reading rule over a generated eqrel relation (all binding patterns, negation, count, self-join, probes at domain extremes) returns exactly the closure computed by the reference evaluator; a search, not a proof.",
+         "Interpreter back end (where brie falls back to btree; compiled representations are exercised by C02's bundles and the structures by C25-C28); known finding F4 (eqrel element -2^31) excluded and re-probed.", "4/C08"),
 })
 
 def entry(pid):
